@@ -965,6 +965,8 @@ pub enum ConstsError {
         "unable to add consts for policy {computation_id}. state must be Validate, SendingConsts or SendingConstsCompleted but is {state}"
     )]
     InvalidState { state: String, computation_id: Uuid },
+    #[error("unable to add consts for policy {computation_id}. unknown party {from}")]
+    UnknownParty { from: usize, computation_id: Uuid },
 }
 
 impl<B, C> PolicyState<B, C>
@@ -978,6 +980,23 @@ where
         consts_request: ConstsRequest,
         ret: Ret<ConstsError>,
     ) -> ControlFlow<(), Self> {
+        // Constants are stored per sending party and `check_consts` counts the entries. Stored
+        // under an index that is no participant they would be counted as if one of the
+        // participants had delivered its constants.
+        if let PolicyStateKind::Validated { policy, .. }
+        | PolicyStateKind::SendingConsts { policy, .. }
+        | PolicyStateKind::SendingConstsCompleted { policy, .. } = &self.state_kind
+            && consts_request.from >= policy.participants.len()
+        {
+            ret_err(
+                ret,
+                ConstsError::UnknownParty {
+                    from: consts_request.from,
+                    computation_id: consts_request.computation_id,
+                },
+            );
+            return ControlFlow::Continue(self);
+        }
         match mem::take(&mut self.state_kind) {
             state @ (PolicyStateKind::Validated { .. } | PolicyStateKind::SendingConsts { .. }) => {
                 self.state_kind = state;
